@@ -1891,8 +1891,8 @@ def corpus_cases(ctx):
         {"name": "corpus-mixdchlet-h", "expect_ok": True, "ops": [op_run("esl-mixdchlet", ["-h"])]},
         {"name": "corpus-mixdchlet-noargs", "ops": [op_run("esl-mixdchlet", [])]},
         # esl-translate: a sequence shorter than a codon is skipped without esl_sq_Reuse(): it is glued in front of the next one
-        # esl-alimanip --xambig: every sequence removed -> ESL_EXCEPTION "No sequences selected" (known finding, fix proposed)
-        {"name": "corpus-alimanip-xambig-all", "known_key": "C13:esl-alimanip:exception:esl_msa.c:No_sequences_selected",
+        # esl-alimanip --xambig: every sequence removed -> was ESL_EXCEPTION "No sequences selected"; repaired in 94aa3ca
+        {"name": "corpus-alimanip-xambig-all",
          "ops": [op_file("in.sto", "# STOCKHOLM 1.0\n\ns1  ACGRT\ns2  AYGNT\n//\n"), op_run("esl-alimanip", ["--xambig", "0", "--dna", "in.sto"])]},
         {"name": "corpus-translate-short", "ref": True, "sticky": 1,
          "ops": [op_file("in.fa", ">a\nCC\n>b a desc\nATTG\n"), op_run("esl-translate", ["-l", "0", "-m", "--crick", "--informat", "fasta", "in.fa"])]},
